@@ -306,6 +306,31 @@ VARIANTS = [
      rep_in(CLI, "main", "delete_status = hashstore_c.hashstore.delete_object(pid)", "delete_status = hashstore_c.hashstore.delete_metadata(pid)")),
     ("C20", "C20.e", "-chs passes the depth as a string",
      rep_in(CLI, "main", '"store_depth": int(getattr(args, "depth")),', '"store_depth": getattr(args, "depth"),')),
+    # ---- rules added after the seeded rounds
+    ("C03", "C03.e", "errors while confirming an existing binding reach the roll-back",
+     rep_in(FHS, "_store_hashstore_refs_files", "                        raise HashStoreRefsAlreadyExists(err_msg)\n                    except Exception as e:\n",
+            "                        raise HashStoreRefsAlreadyExists(err_msg)\n                    except PidRefsContentError as e:\n")),
+    ("C07", "C07.e", "cid claim waits without re-checking",
+     rep_in(FHS, "_synchronize_object_locked_cids", "while cid in self.object_locked_cids_th:", "if cid in self.object_locked_cids_th:")),
+    ("C10", "C10.f", "cid list truncated before it is rewritten",
+     rep_in(FHS, "_update_refs_file", "                    ref_file.writelines(new_pid_lines)\n                    ref_file.truncate()\n", "                    ref_file.truncate()\n                    ref_file.writelines(new_pid_lines)\n")),
+    ("C11", "C11.c", "store_metadata skips the move when a document already exists",
+     rep_in(FHS, "_put_metadata", "                shutil.move(metadata_tmp, full_path)\n", "                if not os.path.isfile(full_path):\n                    shutil.move(metadata_tmp, full_path)\n                else:\n                    os.remove(metadata_tmp)\n")),
+    ("C13", "C13.f", "post-publication verification moved out of the roll-back's reach",
+     rep_in(FHS, "_store_hashstore_refs_files", "                self._untag_object(pid, cid)\n                raise ue\n\n        finally:", "                self._untag_object(pid, cid)\n                raise ue\n\n            else:\n                self._verify_hashstore_references(pid, cid)\n\n        finally:")),
+    ("C14", "C14.f", "configuration served from a class-level cache",
+     rep_in(FHS, "_load_properties", "        with open(hashstore_yaml_path, \"r\", encoding=\"utf-8\") as hs_yaml_file:\n            yaml_data = yaml.safe_load(hs_yaml_file)\n",
+            "        yaml_data = getattr(FileHashStore, \"_cached_yaml\", None)\n        if yaml_data is None:\n            with open(hashstore_yaml_path, \"r\", encoding=\"utf-8\") as hs_yaml_file:\n                yaml_data = yaml.safe_load(hs_yaml_file)\n            FileHashStore._cached_yaml = yaml_data\n")),
+    ("C15", "C15.c", "remove-rewrite drops the final newline",
+     rep_in(FHS, "_update_refs_file", "ref_file.writelines(new_pid_lines)", "ref_file.write(\"\\n\".join(x.strip() for x in new_pid_lines))")),
+    ("C17", "C17.a", "delete_if_invalid_object no longer rejects unsupported algorithms up front",
+     rep_in(FHS, "delete_if_invalid_object", "checksum_algorithm_checked = self._clean_algorithm(checksum_algorithm)", "checksum_algorithm_checked = checksum_algorithm")),
+    ("C20", "C20.f", "-chs skipped when the store already exists",
+     rep_in(CLI, "main", "    if getattr(args, \"create_hashstore\"):\n", "    if getattr(args, \"create_hashstore\") and not os.path.exists(getattr(args, \"store_path\") + \"/hashstore.yaml\"):\n")),
+    ("C06", "C06.a", "verdict through hmac.compare_digest",
+     rep(FHS, "if hex_digest_stored != checksum.lower():", "if not __import__(\"hmac\").compare_digest(hex_digest_stored, checksum.lower()):")) if False else
+    ("C06", "C06.b", "duplicate branch validates the size against itself",
+     rep_in(FHS, "_move_and_get_checksums", "                    tmp_file_size,\n                    file_size_to_validate,\n                )\n            except NonMatchingObjSize as nmose:", "                    tmp_file_size,\n                    tmp_file_size,\n                )\n            except NonMatchingObjSize as nmose:")),
 ]
 
 
